@@ -1310,6 +1310,15 @@ func (c *Conn) sendPending(id uint32) error {
 				c.deletePending(id)
 				c.cancelStream(id, InternalError)
 
+				// Nor can the request: nothing else is going to end it, the
+				// server has just been told to forget the stream.
+				if c.takeReq(id) {
+					atomic.AddInt32(&c.openStreams, -1)
+				}
+
+				pb.ctx.markFinished()
+				pb.ctx.resolve(fmt.Errorf("reading the request body: %w", err))
+
 				return nil
 			}
 
